@@ -248,6 +248,14 @@ def d4_interval_indexing(ctx):
             bloc_first = bool(m) and m.group(1).startswith("bloc") and m.group(2).startswith("opposing")
     ctx.check(cross and bloc_first, f, f.node, "AlternatingCrossover: first num_cross ballots alternate opposing/bloc, the rest list bloc then opposing", "",
               "the crossover / bloc ballot construction or their split changed")
+    # voter-type shares and their pairing with the apportioned counts (shared with C14.G1)
+    from rules import c14
+    sub = type(ctx)(prog, ctx.prop, ctx.tier)
+    c14.g1_apportionment(sub)
+    for o in sub.obs:
+        if "AlternatingCrossover" in o.function or "CambridgeSampler" in o.function:
+            o.rule = "C16.D4"
+            ctx.obs.append(o)
     f = prog.find_func("CambridgeSampler.generate_profile")
     comb = astx.calls_in(f.node, "combine_preference_intervals")
     good = len(comb) == 1 and [astx.u(a) for a in comb[0].args] == ["list(self.pref_intervals_by_bloc[bloc].values())", "[cohesion_parameters[bloc], 1 - cohesion_parameters[bloc]]"]
@@ -296,6 +304,21 @@ def d5_cohesion_sampler(ctx):
     bins = [dv for st, dv in astx.defs_of(f.node, "distribution_bins") if dv is not None]
     ctx.check(len(bins) == 2 and all(astx.u(b) == "[0] + [sum(values[:i + 1]) for i in range(len(blocs))]" for b in bins), f, bins[0] if bins else f.node,
               "bins are the cumulative sums of the current values (recomputed after renormalising)", "", "bin computation changed or is not repeated after renormalising")
+    # zero-cohesion completion: the remaining slots (one per remaining candidate) are shuffled as slots
+    sh = [c for c in astx.calls_in(f.node, "shuffle")]
+    good = False
+    if len(sh) == 1 and isinstance(sh[0].args[0], ast.Name):
+        v = sh[0].args[0].id
+        dv = astx.unique_def(f.node, v)
+        okexp = isinstance(dv, ast.ListComp) and len(dv.generators) == 2 and astx.u(dv.generators[0].iter) == "blocs" and \
+            astx.u(dv.generators[1].iter) == f"range(len({f.params[0]}[{astx.u(dv.generators[0].target)}]))" and astx.u(dv.elt) == astx.u(dv.generators[0].target)
+        blk = pm.get(astx.stmt_of(sh[0], pm))
+        seq = [astx.u(x) for x in getattr(blk, "body", [])]
+        lits = literals(Normalizer(f.node, inline=False).conj(astx.path_condition(f.node, sh[0], pm, carried=False)))
+        after = seq[seq.index(astx.u(astx.stmt_of(sh[0], pm))) + 1:] if astx.u(astx.stmt_of(sh[0], pm)) in seq else []
+        good = okexp and after == [f"ballot_type[i + 1:] = {v}", "break"] and any("total_value_sum" in l for l in lits) and dv.lineno < sh[0].lineno
+    ctx.check(good, f, sh[0] if sh else f.node, "zero-cohesion tail: one slot per remaining candidate, the slots shuffled uniformly, written after position i, round stops", "",
+              "the completion of a ballot among zero-cohesion slates changed (slots must be expanded per candidate BEFORE shuffling)")
     wb = prog.nested_func(f, "which_bin")
     tests = [n.test for n in astx.walk_own(wb.node) if isinstance(n, ast.If)]
     k = astx.u(tests[0]) if tests else ""
@@ -339,6 +362,14 @@ def d6_model_parameters(ctx):
             lits = literals(Normalizer(f.node, inline=False).conj(astx.path_condition(f.node, flat[0], pm)))
             good = lits == {"truthy(isinstance(self.pref_intervals_by_bloc.values()[0], PreferenceInterval))"}
         ctx.check(good, f, flat[0] if flat else f.node, f"{cname}: already-combined intervals are used unchanged", "", "the flat-interval branch changed")
+    # the exact sampler's tables: one per bloc, from that bloc's own combined interval (shared with C15.R3)
+    from rules import c15
+    sub = type(ctx)(prog, ctx.prop, ctx.tier)
+    c15.r3_name_bt(sub)
+    for o in sub.obs:
+        if "BT table per bloc" in o.construct or "_BT_pdf" in o.construct or "BT table" in o.construct:
+            o.rule = "C16.D6"
+            ctx.obs.append(o)
     ctx.check(len(set(seen.values())) == 1 and len(seen) == 3, None, None, "sibling agreement: the three name-models combine intervals identically", str(sorted(seen)),
               f"the combine expressions differ between {sorted(seen)}")
     # complete rankings: name-PL asks for as many positions as there are candidates
@@ -465,6 +496,8 @@ FAULTS += [
     ("cambridge majority threshold strict", [(BG, "bloc for bloc, prop in self.bloc_voter_prop.items() if prop >= 0.5", "bloc for bloc, prop in self.bloc_voter_prop.items() if prop > 0.5")], "C16.D7"),
     ("cambridge opp table normalised by bloc total", [(BG, "                ballot: freq / opp_bloc_first_count", "                ballot: freq / bloc_first_count")], "C16.D7"),
     ("cambridge assembly pops own slate for other label", [(BG, "                    else:\n                        if ordered_opp_slate:\n                            full_ballot.append(ordered_opp_slate.pop(0))", "                    else:\n                        if ordered_opp_slate:\n                            full_ballot.append(ordered_opp_slate.pop())")], "C16.D7"),
+    ("zero-cohesion tail shuffles slates not slots", [(BG, "                    remaining_blocs = [\n                        b\n                        for b in blocs\n                        for _ in range(len(slate_to_non_zero_candidates[b]))\n                    ]\n                    random.shuffle(remaining_blocs)", "                    remaining_blocs = list(blocs)\n                    random.shuffle(remaining_blocs)\n                    remaining_blocs = [\n                        b\n                        for b in remaining_blocs\n                        for _ in range(len(slate_to_non_zero_candidates[b]))\n                    ]")], "C16.D5"),
+    ("BT tables bound late", [(BG, "                bloc: self._BT_pdf(self.pref_interval_by_bloc[bloc].interval)\n                for bloc in self.blocs", "                bloc: self._BT_pdf(self.pref_interval_by_bloc[self.blocs[-1]].interval)\n                for bloc in self.blocs")], "C16.D6"),
     ("cohesion sum taken before the deletion", [(BG, "                del blocs[bloc_index]\n                del values[bloc_index]\n                total_value_sum = sum(values)\n", "                total_value_sum = sum(values)\n                del blocs[bloc_index]\n                del values[bloc_index]\n")], "C16.D5"),
     ("bin lookup falls back to the last bin", [(BG, "            if bin < flip <= dist_bins[i + 1]:\n                return i\n", "            if bin < flip <= dist_bins[i + 1]:\n                return i\n        return len(dist_bins) - 2\n")], "C16.D5"),
     ("combined interval pairs dict orders", [(BG, "                    [self.pref_intervals_by_bloc[bloc][b] for b in self.blocs],\n                    [self.cohesion_parameters[bloc][b] for b in self.blocs],", "                    list(self.pref_intervals_by_bloc[bloc].values()),\n                    list(self.cohesion_parameters[bloc].values()),", "all")], "C16.D6"),
